@@ -286,10 +286,10 @@ class ExprMixin:
         fn = self.reg.specfns.get("class_defines_attr")
         if fn is not None:
             defines = fn(self, s2, base, attr).t
-            s2a = s2.assume(defines)
-            outs += k(s2a, VNone)
-            s2b = s2.assume(Not(defines))
-            outs += self.raise_(s2b, "AttributeError", f"{attr} unset at {where}")
+            if defines.s != "false":
+                outs += k(s2.assume(defines), VNone)
+            if defines.s != "true":
+                outs += self.raise_(s2.assume(Not(defines)), "AttributeError", f"{attr} unset at {where}")
         else:
             outs += self.raise_(s2, "AttributeError", f"{attr} unset at {where}")
         return outs
